@@ -1042,6 +1042,33 @@ def _guarding_wrapper(ck, fi):
     return None
 
 
+def _sorting_handler_absorbs_oserror(ck, fa, h) -> bool:
+    """`h` catches everything under a name, tests the class of what it caught (isinstance) and, when that is an OSError, raises
+    nothing: decided by what remains reachable inside the handler under the assumption that the caught object is an OSError
+    (isinstance against OSError or one of its bases holds, against an unrelated class fails, against a subclass is open)."""
+    if h.name is None or h.type is None or A.norm(h.type) not in ("Exception", "BaseException"):
+        return False
+    import builtins
+    decided = [0]
+
+    def atom(e):
+        if isinstance(e, ast.Call) and isinstance(e.func, ast.Name) and e.func.id == "isinstance" and len(e.args) == 2 \
+                and isinstance(e.args[0], ast.Name) and e.args[0].id == h.name:
+            ts = e.args[1].elts if isinstance(e.args[1], ast.Tuple) else [e.args[1]]
+            names = [(A.norm(t) or "").split(".")[-1] for t in ts]
+            if any(n in OSERROR_NAMES for n in names):
+                decided[0] += 1
+                return True
+            if all(isinstance(getattr(builtins, n, None), type) and not issubclass(getattr(builtins, n), OSError) for n in names):
+                decided[0] += 1
+                return False
+        return None
+    asm = Assume(fa, atom)
+    raises = [n for st in h.body for n in A.walk_local(st) if isinstance(n, ast.Raise)]
+    live = [r for r in raises if asm.live(r)]
+    return bool(raises) and not live and decided[0] > 0
+
+
 def check_recovery(ck):
     R = "C08.R3"
     ck.rule(R, "absorb and recover: I/O errors are absorbed around memoize in the local runner, around the read in "
@@ -1054,6 +1081,11 @@ def check_recovery(ck):
         trys = _try_around(rl, c)
         hs = [h for t in trys for h in t.handlers if _handler_covers_oserror(h) and A.norm(h.type) not in ("Exception", "BaseException")]
         ok = bool(hs) and all(not any(isinstance(n, ast.Raise) for n in A.walk_local(h)) for h in hs[:1])
+        if not hs:
+            # a catch-all handler that sorts what it caught by class and hands everything but I/O errors on (guard-clause spelling of
+            # the typed handler: `except Exception as e: if not isinstance(e, IOError): raise` ...)
+            hs = [h for t in trys for h in t.handlers if _sorting_handler_absorbs_oserror(ck, rl, h)][:1]
+            ok = bool(hs)
         if not hs and (_suppressed(rl, c) or _swallowing_manager(ck, rl, c) is not None):
             # the `with` spelling of the handler: contextlib.suppress(IOError) / a manager of the module whose __exit__
             # swallows an OSError — control continues after the `with`
